@@ -59,9 +59,13 @@ func ResolveRef(root interface{}, ref *Ref) (*Schema, error) {
 		if designatesNothing(res) {
 			return nil, fmt.Errorf("%q designates nothing in the document: %w", ref.String(), ErrSpec)
 		}
-		newSch := new(Schema)
-		if err = swag.DynamicJSONToStruct(res, newSch); err != nil {
+		var newSch *Schema
+		if err = swag.DynamicJSONToStruct(res, &newSch); err != nil {
 			return nil, fmt.Errorf("type: %T: %w: %v", sch, ErrUnknownTypeForReference, err) //nolint:errorlint
+		}
+		if newSch == nil {
+			// the value encodes as JSON null (a union member left empty by its decoder)
+			return nil, fmt.Errorf("%q designates nothing in the document: %w", ref.String(), ErrSpec)
 		}
 		return newSch, nil
 	}
